@@ -171,15 +171,16 @@ def random_scn(rng, k, big=False, sorted_p=0.0, refs=False, types=("uint", "sint
                 for nm, v in e["values"].items():
                     if "r" in v:
                         v["r"] = v["r"] % max(n, 1)
-    indexes = [{"name": "main", "offset": 0, "count": n}]
+    indexes = [{"name": "main", "offset": 0, "count": n, "free_data": [rng.randrange(256) for _ in range(rng.choice([0, 4]))],
+                "index_key": rng.choice([0, 0, 1, 7, 255])}]
     if n >= 1:
         o = rng.randrange(0, n + 1)
-        indexes.append({"name": "sub", "offset": o, "count": rng.randrange(0, n - o + 1)})
+        indexes.append({"name": "sub", "offset": o, "count": rng.randrange(0, n - o + 1), "free_data": [1, 2, 3, 4], "index_key": 2})
         indexes.append({"name": "empty", "offset": rng.randrange(0, n + 1), "count": 0})
     return {"kind": "entries", "id": "s%d" % k, "stores": stores,
             "schema": {"common": common, "variants": variants, "sort": sort},
             "entries": entries, "indexes": indexes, "origin": "random", "expect": "ok",
-            "read_stride": 1 if n <= 400 else 7}
+            "read_stride": 1 if n <= 400 else 7, "free_data": [rng.randrange(256) for _ in range(rng.choice([0, 3, 24]))]}
 
 
 def directed_scns(tier):
